@@ -69,7 +69,10 @@ class CompositeOperation(Generic[OperationType]):
         Displacement
             The combined operation to perform on the atoms.
         """
-        return np.sum([op.calculate(context) for op in self.operations], axis=0)
+        results = [np.asarray(op.calculate(context)) for op in self.operations]
+        shape = np.broadcast_shapes(*(result.shape for result in results))
+
+        return np.sum([np.broadcast_to(result, shape) for result in results], axis=0)
 
     @overload
     def __add__(
